@@ -93,6 +93,8 @@ def main():
             if os.path.exists(os.path.join(d, 'patch.diff')) and os.path.exists(os.path.join(d, 'demo.py')):
                 if len(sys.argv) > 2 and sys.argv[2] not in prop:
                     continue
+                if os.environ.get('SEED_KS') and k not in os.environ['SEED_KS'].split(','):
+                    continue
                 items.append((prop, k, d))
     with ThreadPoolExecutor(8) as ex:
         for r in ex.map(confirm, items):
